@@ -72,7 +72,9 @@ static int run_app(const char* name) {
   std::vector<char*> argv; for (auto& a : args) argv.push_back((char*)a.c_str()); argv.push_back(nullptr);
   std::string cmd; for (auto& a : args) cmd += a + " ";
   vsim_note("cmdline", "%s", cmd.c_str());
+  vsim_plain_preempt_window(1);
   int rc = app_main((int)args.size(), argv.data());
+  vsim_plain_preempt_window(0);
   slurp();
   if (rc) vsim_fail("c20.exit", "%s returned %d", name, rc);
   return rc;
@@ -84,6 +86,7 @@ int main() {
   Machine mc = draw_machine(maxT);
   int threads = (int)vsim_param("threads", 1, mc.hw);
   vsim_enable_fault(VF_CAS_WEAK, 0.005, 0.1);
+  vsim_enable_fault(VF_PLAIN_PREEMPT, 0.02, 0.6);   // plain shared data of the library (behind locks, in shared helper state) becomes preemptible
   vsim_enable_fault(VF_COND_SPURIOUS, 0.02, 0.2);
   vsim_set_budget(40000000);
   std::string path = std::string(vsim_workdir()) + "/g.gr";
@@ -94,8 +97,25 @@ int main() {
   gr::Model m = gr::generate(maxn, false);
   for (auto& e : m.edges) e.data = (uint64_t)wl_range(wl_chance(10) ? 0 : 1, wl_chance(10) ? 100000 : 20);
   if (m.n == 0) { m.n = 1; m.end.assign(1, 0); }
-  gr::write_file(path, gr::encode(m, 1, 4));
   uint32_t src = (uint32_t)wl_range(0, m.n - 1);
+  if (wl_chance(12)) {
+    // big hub: the tiled variants split the edges of a node into tiles of 256 (bfs) / 512 (sssp) edges; degrees around
+    // one and two tiles, with leaves that are reachable through exactly one hub edge
+    static const int degs[] = {255, 256, 257, 300, 511, 512, 513, 600, 770, 1025};
+    int D = degs[wl_range(0, 9)] + (wl_chance(30) ? (int)wl_range(-3, 3) : 0);
+    uint32_t hub = wl_chance(50) ? src : (uint32_t)wl_range(0, m.n - 1);
+    std::vector<gr::Edge> es(m.edges.begin(), m.edges.end());
+    uint32_t first_leaf = m.n; m.n += (uint32_t)D;
+    for (int i = 0; i < D; i++) es.push_back(gr::Edge{hub, first_leaf + (uint32_t)i, (uint64_t)wl_range(1, 20)});
+    if (hub != src) es.push_back(gr::Edge{src, hub, (uint64_t)wl_range(1, 20)});
+    for (int i = 0; i < 6; i++) es.push_back(gr::Edge{first_leaf + (uint32_t)wl_range(0, D - 1), (uint32_t)wl_range(0, m.n - 1), (uint64_t)wl_range(1, 20)});
+    std::stable_sort(es.begin(), es.end(), [](auto& a, auto& b) { return a.src < b.src; });
+    m.edges = es; m.end.assign(m.n, 0);
+    for (auto& e : m.edges) m.end[e.src]++;
+    for (uint32_t i = 1; i < m.n; i++) m.end[i] += m.end[i - 1];
+    vsim_probe("big_hub");
+  }
+  gr::write_file(path, gr::encode(m, 1, 4));
   std::vector<uint64_t> dist(m.n, ~0ull);
   std::vector<std::vector<std::pair<uint32_t, uint64_t>>> adj(m.n);
   for (auto& e : m.edges) adj[e.src].push_back({e.dst, APP == 1 ? 1 : e.data});
@@ -124,6 +144,18 @@ int main() {
   // ---------------- symmetric inputs ----------------
   bool simple = APP != 3 && APP != 7 ? true : wl_chance(50);
   UG g = gen_undirected(APP == 6 ? 16 : maxn, simple, 50);
+  if (APP == 7 && wl_chance(50)) {
+    // contended components with a unique MST: few nodes, many edges, pairwise distinct weights (with the default small
+    // weight range most wrong choices of a "lightest" edge are masked by ties)
+    // (the loops hand out nodes / work items in chunks of 16, so threads only meet on a component with clearly more than 16 nodes)
+    g.n = (uint32_t)wl_range(20, tier() ? 160 : 90); g.e.clear();
+    { std::set<std::pair<uint32_t, uint32_t>> seen; size_t target = (size_t)wl_range(g.n, 4 * g.n);
+      for (size_t k = 0; k < target; k++) { uint32_t a = (uint32_t)wl_range(0, g.n - 1), b = wl_chance(50) ? (a + 1 + (uint32_t)wl_range(0, 3)) % g.n : (uint32_t)wl_range(0, g.n - 1); if (a == b) continue; if (a > b) std::swap(a, b); if (seen.insert({a, b}).second) g.e.push_back({a, b, 0}); } }
+    std::vector<uint32_t> ws(g.e.size()); for (size_t i = 0; i < ws.size(); i++) ws[i] = (uint32_t)(3 * i + 1 + wl_range(0, 2));
+    for (size_t i = ws.size(); i > 1; i--) std::swap(ws[i - 1], ws[wl_range(0, (long)i - 1)]);
+    for (size_t i = 0; i < ws.size(); i++) g.e[i][2] = ws[i];
+    vsim_probe("distinct_weights");
+  }
   if (APP == 7) { for (auto& x : g.e) if (!x[2]) x[2] = 1; if (g.e.empty()) { if (g.n < 2) g.n = 2; g.e.push_back({0, 1, 3}); } }   // Boruvka requires at least one edge and positive weights
   gr::Model m = to_model(g, true);
   gr::write_file(path, gr::encode(m, 1, 4));
